@@ -383,6 +383,45 @@ func c06CheckProj(text, rejected, proj string, in bool, want func(i int) bool, r
 			}
 		}
 	}
+	if proj == "" {
+		return ""
+	}
+	// A parser and a filter are separate objects: (a) ONE parser that has already attached a value list to another
+	// filter (one that matches nothing, one that matches everything) gives this filter its own expression and the
+	// list, no more; (b) ONE filter given lists by two parsers in turn keeps every list it was given.
+	for _, other := range []string{"-*", "*"} {
+		var pp2 ProjectionParser
+		fo, _ := NewFilter(other)
+		if _, err := pp2.Parse(proj, fo); err != nil {
+			return fmt.Sprintf("projection %q rejected on filter %q: %v", proj, other, err)
+		}
+		f2, _ := NewFilter(text)
+		if _, err := pp2.Parse(proj, f2); err != nil {
+			return fmt.Sprintf("projection %q rejected on the parser's second filter: %v", proj, err)
+		}
+		var pa, pb ProjectionParser
+		f3, _ := NewFilter(text)
+		pa.Parse(proj, f3)
+		pb.Parse(`/k@(1 2 7 8 "")`, f3) // a list that holds the standard result's value: no further restriction
+		pb.Parse(`.name@(NoSuchName)`, f3)
+		pa.Parse(proj, f3)
+		for _, res := range results {
+			m2, _ := f2.Match(res)
+			mo, _ := fo.Match(res)
+			m3, _ := f3.Match(res)
+			for i := range res.Values {
+				if w := in && want(i); m2.Test(i) != w {
+					return fmt.Sprintf("filter %q given projection %q by a parser that had served filter %q before: Test(%d)=%v want %v", text, proj, other, i, m2.Test(i), w)
+				}
+				if w := in && other == "*"; mo.Test(i) != w {
+					return fmt.Sprintf("filter %q with projection %q, after its parser served another filter: Test(%d)=%v want %v", other, proj, i, mo.Test(i), w)
+				}
+				if m3.Test(i) {
+					return fmt.Sprintf("filter %q given %q by one parser, .name@(NoSuchName) by another, and %q again by the first: Test(%d)=true although no result is named NoSuchName", text, proj, proj, i)
+				}
+			}
+		}
+	}
 	return ""
 }
 
